@@ -602,3 +602,7 @@ Definition run_imp_u (c : Z * list source * list str) : val :=
   let '(now, srcs, eids) := c in run_imp (now, srcs, query_universe eids).
 Definition run_roundtrip_u (c : Z * config * list str) : val :=
   let '(now, cfg, eids) := c in run_roundtrip (now, cfg, query_universe eids).
+
+(* for reports: the per-query answers of a case output *)
+Definition answers_of (v : val) : list val :=
+  match v with VL [_; VL l] => l | VL l => l | _ => [] end.
